@@ -12,6 +12,7 @@ import SslModel.Model.Conc
 import SslModel.Model.Check
 import SslModel.Model.CheckF
 import SslModel.Model.CheckS
+import SslModel.Model.FoldIO
 /-! Model side of the correspondence: one request per line on stdin, one canonical answer per
     line on stdout.  Import-free apart from the model, so it links as a native executable. -/
 open Ssl
@@ -163,6 +164,15 @@ def handleProg (rest : String) : String :=
     | _, _ => "(bad-program)"
   | _ => "(bad-request)"
 
+/-- `fold (S*)` : the folded program the model of the Recreate pass answers -/
+def handleFold (rest : String) : String :=
+  match Sexp.parseMany rest with
+  | [.list stmts] =>
+    match stmts.mapM Spec.exprOf with
+    | some ss => Fold.showResult (Fold.foldProgram ss)
+    | none => "(bad-program)"
+  | _ => "(bad-request)"
+
 /-- `tyof ((x T)*) (S*)` : the static type the checker model assigns to a statement list of the first-order fragment
     whose free variables have the given types -/
 def handleTyOf (rest : String) : String :=
@@ -299,6 +309,7 @@ def handleConc (all : Bool) (ncells inits threads : String) : String :=
 def handle (line : String) : String :=
   if line.startsWith "valdebug " || line.startsWith "valparse " then handleVal line else
   if line.startsWith "repl " then handleRepl ((line.drop 5).trimAscii.toString) else
+  if line.startsWith "fold " then handleFold ((line.drop 5).trimAscii.toString) else
   if line.startsWith "tyofs " then handleTyOfS ((line.drop 6).trimAscii.toString) else
   if line.startsWith "tyoff " then handleTyOfF ((line.drop 6).trimAscii.toString) else
   if line.startsWith "tyof " then handleTyOf ((line.drop 5).trimAscii.toString) else
